@@ -102,3 +102,20 @@ def cmp3(got, want):
     if w_.all_free() and data_dependent(g_):
         return 'violation'
     return 'unknown'
+
+
+def dom3(raises, returns, bad, qual=None, exc='ValueError'):
+    """Outcome of an abstract run against a documented rejection:
+    -> (status, detail).  ``bad`` = the input must be rejected.  A run that
+    both raises and returns did not decide the guard for this input
+    (both continuations were explored): unknown, not a violation."""
+    any_raise = any(x[1] == exc and (qual is None or x[0] == qual)
+                    for x in raises)
+    returned = bool(returns)
+    if any_raise and returned:
+        return 'unknown', 'the rejection test is not decided by the ' \
+            'abstract run (both continuations explored)'
+    raised = any_raise and not returned
+    if raised == bad:
+        return 'ok', ''
+    return 'violation', 'not rejected' if bad else 'rejected'
